@@ -395,3 +395,82 @@ Definition fl_boundary (s : fl_st) : Prop := s_skip s = 0 /\ s_after s = None /\
 Definition fl_link_no_on (l : fl_link) : bool := match l_eng l with Some MOn => false | _ => true end.
 Definition fl_no_switch_on (rs : list fl_rule) : bool :=
   forallb (fun r => forallb fl_link_no_on (r_links r)) rs.
+
+(* ctl:ruleRemoveById=<lo>-<hi> (tx.ruleRemoveByIDRanges; the loop tests lo <= ID_ <= hi) is carried in
+   l_rm / s_rm as the ids lo..hi: the same membership test (FlowProofs.range_membership) *)
+Definition fl_range (lo hi : nat) : list nat := seq lo (S hi - lo).
+
+(* ---------------------------------------------------------------------------------- *)
+(* configure time: SecDefaultAction + block, SecRuleRemoveById                         *)
+(* ---------------------------------------------------------------------------------- *)
+
+(* an argument of SecRuleRemoveById: one id (RuleGroup.DeleteByID) or a range (DeleteByRange) *)
+Inductive fl_rmv := RmId (i : nat) | RmRange (lo hi : nat).
+
+Definition fl_rm_hit (id : nat) (e : fl_rmv) : bool :=
+  match e with
+  | RmId i => id =? i
+  | RmRange lo hi => (lo <=? id) && (id <=? hi)
+  end.
+
+(* an action as written on the starter: a modelled action, pass, or block *)
+Inductive fl_sact := SA (a : fl_act) | SPass | SBlock.
+
+(* mergeActions: is it a disruptive action other than block *)
+Definition fl_sact_is_da (x : fl_sact) : bool :=
+  match x with SA (AAllow _) => true | SA ADeny => true | SPass => true | _ => false end.
+(* what the written action contributes at run time (pass and block evaluate to nothing) *)
+Definition fl_sact_keep (x : fl_sact) : list fl_act := match x with SA a => [a] | _ => [] end.
+
+(* rule_parser.go applyParsedActions + mergeActions: dflt = the SecDefaultAction of the rule's phase
+   (None: none defined, nothing is merged; Some None: its disruptive action is pass; Some (Some a): deny /
+   allow). The rule's own actions keep their order, block is dropped, the default disruptive action is
+   appended when the rule has no disruptive action of its own or only block *)
+Definition fl_resolve_acts (dflt : option (option fl_act)) (src : list fl_sact) : list fl_act :=
+  let own := flat_map fl_sact_keep src in
+  match dflt with
+  | None => own
+  | Some da => if existsb fl_sact_is_da src then own
+               else own ++ match da with Some a => [a] | None => [] end
+  end.
+
+Inductive fl_directive :=
+  | DRule (r : fl_rule) (sacts : list fl_sact)    (* SecRule / SecAction (chain attached) / SecMarker; r_acts r is ignored *)
+  | DDefault (p : nat) (da : option fl_act)       (* SecDefaultAction "phase:p,<pass|deny|allow..>" *)
+  | DRemove (l : list fl_rmv).                    (* SecRuleRemoveById id .. lo-hi .. *)
+
+Fixpoint fl_find_default (defs : list (nat * option fl_act)) (p : nat) : option (option fl_act) :=
+  match defs with
+  | [] => if p =? 2 then Some None else None      (* defaultActionsPhase2 = "phase:2,log,auditlog,pass" *)
+  | (q, da) :: t => if q =? p then Some da else fl_find_default t p
+  end.
+
+Definition fl_set_acts (r : fl_rule) (acts : list fl_act) : fl_rule :=
+  mkRule (r_id r) (r_phase r) (r_mark r) (r_links r) acts.
+
+(* RuleGroup.DeleteByID: the FIRST rule with that id only *)
+Fixpoint fl_delete_first (id : nat) (rs : list fl_rule) : list fl_rule :=
+  match rs with
+  | [] => []
+  | r :: t => if r_id r =? id then t else r :: fl_delete_first id t
+  end.
+
+(* RuleGroup.DeleteByID / DeleteByRange *)
+Definition fl_delete (rs : list fl_rule) (e : fl_rmv) : list fl_rule :=
+  match e with
+  | RmId i => fl_delete_first i rs
+  | RmRange lo hi => filter (fun r => negb (fl_rm_hit (r_id r) (RmRange lo hi))) rs
+  end.
+
+(* the parser going through the configuration: directives act on what was read before them *)
+Fixpoint fl_configure_from (defs : list (nat * option fl_act)) (acc : list fl_rule) (ds : list fl_directive)
+  : list fl_rule :=
+  match ds with
+  | [] => acc
+  | DRule r sa :: t =>
+      fl_configure_from defs (acc ++ [fl_set_acts r (fl_resolve_acts (fl_find_default defs (r_phase r)) sa)]) t
+  | DDefault p da :: t => fl_configure_from (defs ++ [(p, da)]) acc t
+  | DRemove l :: t => fl_configure_from defs (fold_left fl_delete l acc) t
+  end.
+
+Definition fl_configure (ds : list fl_directive) : list fl_rule := fl_configure_from [] [] ds.
